@@ -288,8 +288,15 @@ class Message:
 
     def ensure_parsed(self):
         # This is a little magic, think about whether we want this.
-        if self.raw_body and self.deserializer():
-            self.deserializer().parse_message_body(self)
+        if not self.raw_body:
+            return
+        deserializer = self.deserializer() if self.deserializer is not None else None
+        if deserializer is None:
+            # We only weakly refer to whatever read our header and it's gone already.
+            # The body doesn't depend on it, any deserializer can parse it.
+            from hippolyzer.lib.base.message.udpdeserializer import UDPMessageDeserializer
+            deserializer = UDPMessageDeserializer()
+        deserializer.parse_message_body(self)
 
     def to_dict(self, extended=False):
         """ A dict representation of a message.
